@@ -19,6 +19,15 @@ refed::Mat lattice_H(const Lattice& L, const IndexClassification& IC) {
     return H;
 }
 
+std::string mat_key_full(const refed::Mat& H) {
+    std::string k; k.reserve(H.size() * 4);
+    for (int j = 0; j < H.cols(); ++j) for (int i = 0; i < H.rows(); ++i) {
+        cd v = H(i, j); long long re = llround(v.real() * 1e9), im = llround(v.imag() * 1e9);
+        if (re == 0 && im == 0) { k += '.'; continue; }
+        k += std::to_string(re); if (im) { k += 'i'; k += std::to_string(im); } k += ',';
+    }
+    return k;
+}
 std::string mat_key(const refed::Mat& H) {
     std::string k; k.reserve(H.size() * 4);
     for (int j = 0; j < H.cols(); ++j) for (int i = 0; i <= j; ++i) {
